@@ -215,7 +215,11 @@ func Emit(c *ir.Config, d Delivery) (yaml string, params []string) {
 		var b strings.Builder
 		for _, k := range mapKeys(d.Shuffle, c.InjectedFields) {
 			fmt.Fprintf(&b, "  %s:\n", q(k))
-			for _, f := range c.InjectedFields[k] { // order kept (see DESIGN §6 C14)
+			inj := append([]ir.Injected(nil), c.InjectedFields[k]...)
+			if d.Shuffle != nil { // the attributes of a message form a set: their order in the list is immaterial
+				d.Shuffle.Shuffle(len(inj), func(i, j int) { inj[i], inj[j] = inj[j], inj[i] })
+			}
+			for _, f := range inj {
 				fmt.Fprintf(&b, "    - name: %s\n      type: %s\n", q(f.Name), q(f.Type))
 				if f.Required {
 					b.WriteString("      required: true\n")
